@@ -367,6 +367,52 @@ func longLivedTypes(p *Prog) map[string]bool {
 	return held
 }
 
+// registryKeyed: every grow site is a map update whose key is the range key of one and the same other map field of the
+// owner, and that field does not grow on traffic paths. Returns the registry's field key, or "".
+func registryKeyed(p *Prog, grows []cSite, cs map[string]*containerInfo, traffic map[*ssa.Function]bool, self string) string {
+	reg := ""
+	for _, g := range grows {
+		mu, ok := g.at.(*ssa.MapUpdate)
+		if !ok {
+			return ""
+		}
+		ex, ok := p.origin(mu.Key).(*ssa.Extract)
+		if !ok || ex.Index != 1 {
+			return ""
+		}
+		nx, ok := ex.Tuple.(*ssa.Next)
+		if !ok {
+			return ""
+		}
+		rg, ok := nx.Iter.(*ssa.Range)
+		if !ok {
+			return ""
+		}
+		u, ok := p.origin(rg.X).(*ssa.UnOp)
+		if !ok || u.Op != token.MUL {
+			return ""
+		}
+		fa, ok := u.X.(*ssa.FieldAddr)
+		if !ok {
+			return ""
+		}
+		rk := fieldKeyAddr(fa)
+		if rk == self || ownerOfFieldKey(rk) != ownerOfFieldKey(self) || cs[rk] == nil {
+			return ""
+		}
+		for _, rgw := range cs[rk].grow {
+			if traffic[rgw.fn] {
+				return ""
+			}
+		}
+		if reg != "" && reg != rk {
+			return ""
+		}
+		reg = rk
+	}
+	return reg
+}
+
 func runEngineE(p *Prog, o *obls) {
 	cs := collectContainers(p)
 	traffic := trafficFuncs(p)
@@ -430,6 +476,23 @@ func runEngineE(p *Prog, o *obls) {
 		if keyDomainBounded(c.typ) {
 			o.ok("E1", fk, pos, "grows on a traffic path without a live shrink, but its key type has at most 2^16 values (key-domain bounded)")
 			continue
+		}
+		// per-stream side table: every traffic-path insert uses the key of an entry of a registry map of the same owner
+		// (the loop ranges over it) that itself only grows at bind time, and the unbind that shrinks the registry shrinks
+		// this table too — bounded by the number of bound streams
+		if reg := registryKeyed(p, tg, cs, traffic, fk); reg != "" {
+			sharedUnbind := false
+			for _, s := range c.shrink {
+				for _, rs := range cs[reg].shrink {
+					if rs.fn == s.fn {
+						sharedUnbind = true
+					}
+				}
+			}
+			if sharedUnbind {
+				o.ok("E1", fk, pos, "grows on a traffic path only under keys of the registry "+reg+" (filled at bind time) and is shrunk where that registry is: bounded by the number of bound streams")
+				continue
+			}
 		}
 		w := fmt.Sprintf("grows on a traffic path (%s at %s in %s) but nothing removes entries on any traffic path", tg[0].kind, p.instrPos(tg[0].at), funcKey(tg[0].fn))
 		if len(c.shrink) > 0 {
